@@ -66,6 +66,20 @@ TABLE = {
         note="bounds as C07; release styles discard/await/destructor; liveness on the specification, on the code: no replayed schedule "
              "ends with a blocked thread",
         design_ref="6/C08, 3.3"),
+    "C11": dict(
+        claimed=True,
+        text="TLC checks spec/ThreadPool/ThreadPool.tla at lock grain (one action per critical section of the pool mutex, per "
+             "post-unlock code block, per condition-variable wake-up and per thread join; closures die where the code lets them die) "
+             "for client scripts of 1-4 submissions of every kind (co_await pool, run(fn), run_detached, run(async), resume(), a job "
+             "that stops the pool from a worker) and stop() from the client, from a worker, or both, on pools of 1-3 workers: "
+             "AtMostOnce, RanOnWorker, RunOrCancelOnce, NoHang, Termination. Every edge of each script's state graph is replayed on "
+             "the real thread_pool: its worker threads are adopted by the controlled scheduler through interposed pthread_create, "
+             "mutex/condvar/join are virtual, and the projection (job outcomes, executing thread, queue length, exit flag, every "
+             "thread's pending operation and the exact set of enabled threads) is compared after every step.",
+        note="bounds: 1-3 workers, <=4 submissions + <=2 stops per script, one client thread; lock grain (atomics inside critical sections "
+             "and promise resolution are not scheduling points); notify_one wakes the longest waiter, no spurious wake-ups; "
+             "resume(suspend_point)/pool(awaitable) dropping a bare handle on a stopped pool is a recorded known finding",
+        design_ref="6/C11, 3.7, 4.1, 9.4"),
     "C20": dict(
         claimed=True,
         text="The Future and Mutex specifications carry an allocation allowance (Future: none; Mutex: only the coroutine frames the "
